@@ -19,13 +19,13 @@ fn arg_val(args: &[String], name: &str) -> Option<String> {
 
 fn dec_to_json(d: &Dec) -> Value {
     match d {
-        Dec::Bool { taken, both, .. } => json!({"b": taken, "both": both}),
+        Dec::Bool { taken, both, h, .. } => json!({"b": taken, "both": both, "h": h}),
         Dec::Choose { taken, n, rot } => json!({"c": taken, "n": n, "rot": rot}),
     }
 }
 fn dec_from_json(j: &Value) -> Dec {
     if let Some(b) = j.get("b") {
-        Dec::Bool { taken: b.as_bool().unwrap(), other: false, both: j.get("both").and_then(|x| x.as_bool()).unwrap_or(false) }
+        Dec::Bool { taken: b.as_bool().unwrap(), other: false, both: j.get("both").and_then(|x| x.as_bool()).unwrap_or(false), h: 0 }
     } else {
         Dec::Choose { taken: j["c"].as_u64().unwrap() as u32, n: j["n"].as_u64().unwrap() as u32, rot: j["rot"].as_u64().unwrap() as u32 }
     }
